@@ -12,5 +12,5 @@ CONSTANTS
   KindsU = {0, 1}
   Triple = FALSE
   MaxDepth = 3
-INVARIANTS MergeLaws Associative
+INVARIANTS MergeLaws Associative ViewAgreement
 CHECK_DEADLOCK FALSE
